@@ -23,6 +23,11 @@ Proof. reflexivity. Qed.
 Lemma gen_regex_anchored : fx_regex gen_fixes = re_anchored.
 Proof. vm_compute. reflexivity. Qed.
 
+(* senderror.go: the three classifiers check the length of the error text before indexing (no panic on the
+   empty or short error text of a failing producer) *)
+Lemma gen_len_guards_present : gen_len_guards = true.
+Proof. reflexivity. Qed.
+
 (* iota order of SendErrReason *)
 Lemma gen_reasons_std : gen_reasons = std_reasons.
 Proof. vm_compute. reflexivity. Qed.
